@@ -257,6 +257,7 @@ static struct simk_fault *fault_at(int site);
 extern void __tsan_acquire(void *addr) __attribute__((weak));
 extern void __tsan_release(void *addr) __attribute__((weak));
 extern void __tsan_write_range(void *addr, unsigned long size) __attribute__((weak));
+extern void __tsan_read_range(void *addr, unsigned long size) __attribute__((weak));
 static struct { int kind; void (*h)(int); uint64_t mask; int flags; } sigtab[65];
 static uint64_t proc_sigpend;
 #define SBIT(s) (1ULL << ((s) - 1))
@@ -1670,6 +1671,11 @@ int simk_pthread_sigmask(int how, const sigset_t *set, sigset_t *old)
 	uint64_t b;
 
 	simk_yield();
+	/* the caller's buffers are read and written on its behalf (visible to the race detector) */
+	if (old != NULL && __tsan_write_range)
+		__tsan_write_range(old, sizeof(*old));
+	if (set != NULL && __tsan_read_range)
+		__tsan_read_range((void *)set, sizeof(*set));
 	if (old != NULL)
 		bits_to_set(T[me].sigmask, old);
 	if (set != NULL) {
@@ -1786,13 +1792,6 @@ static struct sproc *proc_new(const struct simk_child_script *s, int stranger)
 	return p;
 }
 
-pid_t simk_spawn_stranger(const struct simk_child_script *s)
-{
-	struct sproc *p = proc_new(s, 1);
-	pid_t pid = p ? p->pid : -1;
-	simk_yield();
-	return pid;
-}
 
 static void proc_events(void)
 {
@@ -2016,6 +2015,27 @@ pid_t simk_fork(void)
 			atf[i].parent();
 	simk_yield();
 	return p->pid;
+}
+
+pid_t simk_spawn_stranger(const struct simk_child_script *s)
+{
+	/* an application thread calls fork() on its own: the registered fork handlers run around it,
+	 * as they would in a real process */
+	struct sproc *p;
+	pid_t pid;
+	int i;
+
+	simk_yield();
+	for (i = natf - 1; i >= 0; i--)
+		if (atf[i].prep)
+			atf[i].prep();
+	p = proc_new(s, 1);
+	pid = p ? p->pid : -1;
+	for (i = 0; i < natf; i++)
+		if (atf[i].parent)
+			atf[i].parent();
+	simk_yield();
+	return pid;
 }
 
 pid_t simk_wait4(pid_t pid, int *status, int options, struct rusage *ru)
